@@ -32,3 +32,5 @@ run pubrel_repeat_no_pubcomp subscriber sub "MaxD = 2 MaxGen = 1 MaxN = 1 Window
 run no_resubscribe subscriber sub "MaxD = 3 MaxGen = 2 MaxN = 2 Windows = {1, 2} MaxId = 3" "INVARIANT Inv_C07_live"
 run disconnect_keeps_timers publisher pub "$P" "PROPERTY Act_C18"
 run ping_overwrites_alarm keepalive both "MaxD = 2 MaxGen = 2 MaxN = 1 Windows = {1} MaxId = 3" "INVARIANT Inv_C13"
+run refused_connect_sets_params session pub "$S" "PROPERTY Act_C14"
+run pubrec_repeat_resends publisher pub "$P" "INVARIANT Inv_C13"
